@@ -1,18 +1,4 @@
-mod accessseq;
-mod cacheseq;
-mod checks;
-mod driver;
-mod e2;
-mod exec;
-mod kinds;
-mod seq;
-mod serdechk;
-mod types;
-mod lin;
-mod litmus;
-mod prog;
-mod rt;
-mod varc;
+use vcheck::{checks, driver, e2, litmus};
 
 fn usage() -> ! {
     eprintln!("usage: vcheck run <ID> <quick|thorough> | replay <file> | selftest | worker ...");
